@@ -109,6 +109,15 @@ type mVendor struct {
 		N string `avp:"V-UTF8String"`
 	} `avp:"VV-Grouped"`
 }
+type mVendorOdd struct {
+	W uint32               `avp:"VW-Unsigned32"`
+	X datatype.OctetString `avp:"VX-OctetString"`
+}
+type mEmbeddedLate struct {
+	X uint32 `avp:"V-Unsigned32"`
+	mBase
+	S string `avp:"V-UTF8String"`
+}
 type mAVPs struct {
 	A  diam.AVP    `avp:"V-Unsigned32"`
 	P  *diam.AVP   `avp:"V-UTF8String"`
@@ -135,6 +144,8 @@ var mTypes = []mType{
 	{"Omit", func() interface{} { return &mOmit{} }},
 	{"Vendor", func() interface{} { return &mVendor{} }},
 	{"AVPs", func() interface{} { return &mAVPs{} }},
+	{"VendorOdd", func() interface{} { return &mVendorOdd{} }},
+	{"EmbeddedLate", func() interface{} { return &mEmbeddedLate{} }},
 }
 
 // ---- building values from a choice vector
